@@ -496,6 +496,7 @@ fn compact_value(r: &mut Value, field: &str) {
 ///   "attentive"  the client reads while the server answers
 ///   "late"       small receive buffer, nothing is read for 1.5 s, then everything
 ///   "drip"       small receive buffer, 16 KiB reads with pauses
+///   "stalled"    small receive buffer, nothing is read for 4.5 s (the server's timeout is 2 s)
 pub fn run_slow_universe(srv: &Server, frames: &[Frame], mode: &str, u: usize, out: &mut dyn Write) -> usize {
     use std::io::Read as R;
     use std::io::Write as W;
@@ -506,7 +507,11 @@ pub fn run_slow_universe(srv: &Server, frames: &[Frame], mode: &str, u: usize, o
     for f in frames {
         bytes.extend_from_slice(&f.bytes());
     }
-    bytes.extend_from_slice(&Frame::consistent(0x0a, &[], &[], &[], SENTINEL, 0).bytes());
+    // (nothing behind a quit: the server would close with unread input, which makes the kernel reset the connection)
+    let ends_with_quit = frames.last().map(|f| f.opcode == 0x07 && f.magic == 0x80).unwrap_or(false);
+    if !ends_with_quit {
+        bytes.extend_from_slice(&Frame::consistent(0x0a, &[], &[], &[], SENTINEL, 0).bytes());
+    }
     let sock = socket2::Socket::new(socket2::Domain::IPV4, socket2::Type::STREAM, None).unwrap();
     if mode != "attentive" {
         let _ = sock.set_recv_buffer_size(8192);
@@ -523,6 +528,10 @@ pub fn run_slow_universe(srv: &Server, frames: &[Frame], mode: &str, u: usize, o
     let writer = std::thread::spawn(move || w.write_all(&bytes).is_ok());
     if mode == "late" {
         std::thread::sleep(Duration::from_millis(1500));
+    }
+    if mode == "stalled" {
+        // longer than the server's (2 s) timeout: a write that waits for the client is not an idle connection
+        std::thread::sleep(Duration::from_millis(4500));
     }
     let t0 = Instant::now();
     let mut resp: Vec<u8> = Vec::new();
